@@ -16,6 +16,8 @@ import traceback
 ROOT = os.path.dirname(os.path.dirname(os.path.abspath(__file__)))
 sys.path.insert(0, ROOT)
 REPO = os.environ.get("PYVC_REPO", "/repo")
+# runs against a scratch copy of the library (self-tests, seeded changes) never touch the committed evidence
+OUT = ROOT if os.path.realpath(REPO) == "/repo" else os.path.join(ROOT, ".scratch")
 VENV_PY = os.path.join(ROOT, ".venv312", "bin", "python")
 LOCK = os.path.join(ROOT, "contracts", "OBLIGATIONS.lock.json")
 CHECKER_CMD = "python3-vt -m pyvc.run (AST of /repo -> VCs -> z3 5.1.0 API, cvc5 1.0.3 CLI for z3's unknowns)"
@@ -73,7 +75,8 @@ def run_harness(pid, tier, seed, budget_s):
     if not os.path.exists(mod):
         return None
     ensure_venv()
-    out = os.path.join(ROOT, "evidence", f".{pid}.harness.json")
+    os.makedirs(os.path.join(OUT, "evidence"), exist_ok=True)
+    out = os.path.join(OUT, "evidence", f".{pid}.harness.json")
     env = dict(os.environ, PYTHONPATH=f"{ROOT}:{REPO}", VERIF_SEED=str(seed), VERIF_TIER=tier,
                PYTHONHASHSEED="0", PYTHONDONTWRITEBYTECODE="1")
     cmd = [VENV_PY, "-m", "harness.run", pid, "--tier", tier, "--seed", str(seed), "--out", out]
@@ -211,7 +214,11 @@ def main():
         for v in harness.get("violations", []):
             violations.append({"kind": "bounded", **v})
     # replay + known findings + report
-    os.makedirs(os.path.join(ROOT, "replay", pid), exist_ok=True)
+    rdir = os.path.join(OUT, "replay", pid)
+    os.makedirs(rdir, exist_ok=True)
+    for f in os.listdir(rdir):          # replay files describe THIS run only
+        if f.endswith(".json"):
+            os.remove(os.path.join(rdir, f))
     lines = []
     n_viol = 0
     for v in violations:
@@ -223,7 +230,7 @@ def main():
                 known_lines.append(line)
             continue
         n_viol += 1
-        rp = os.path.join(ROOT, "replay", pid, (key.replace("/", "__").replace(" ", "_")[:150]) + ".json")
+        rp = os.path.join(OUT, "replay", pid, (key.replace("/", "__").replace(" ", "_")[:150]) + ".json")
         payload = {"property": pid, "tree": tree_id(), **v}
         suffix = ""
         if v["kind"] == "obligation" and v.get("undischarged"):
@@ -279,8 +286,8 @@ def main():
     ev = {"property_id": pid, "tier": tier, "seed": seed, "level": level_written, "coverage": cov,
           "assumptions": sorted(assumptions), "wall_s": round(time.time() - t0, 2), "violations": n_viol,
           "known_findings": known_lines, "tree": tree_id(), "errors": errors[:20]}
-    os.makedirs(os.path.join(ROOT, "evidence"), exist_ok=True)
-    json.dump(ev, open(os.path.join(ROOT, "evidence", f"{pid}.json"), "w"), indent=1, default=str)
+    os.makedirs(os.path.join(OUT, "evidence"), exist_ok=True)
+    json.dump(ev, open(os.path.join(OUT, "evidence", f"{pid}.json"), "w"), indent=1, default=str)
     if a.update_lock:
         lock[pid] = {"obligations": {oid: o["solver"] for oid, o in sorted(by_id.items()) if o["status"] == "unsat"},
                      "functions": {r["function"]: r.get("source_hash") for r in results if not r["error"]}}
